@@ -135,7 +135,7 @@ def drt_case(draw):
     s["kwargs"].setdefault("noise", 0.1)
     s["kwargs"].setdefault("seed", 5)
     method = draw(st.sampled_from(["tr-nnls", "tr-nnls", "lm"]))
-    return {"cmd": "drt", "inputs": [{"mock": s}], "method": method, "mode": draw(st.sampled_from(["real", "imaginary"])), "lam": draw(st.sampled_from([1e-3, 1e-2, -1.0])),
+    return {"cmd": "drt", "inputs": [{"mock": s}], "method": method, "mode": draw(st.sampled_from(["real", "imaginary"])), "lam": draw(st.sampled_from([1e-3, 1e-2, 0.0, -1.0, -2.0, -5.0])),
             "order": draw(st.sampled_from([0, 2, 3])), "fmt": draw(st.sampled_from(["csv", "json", "md"])), "digits": 6, "threshold": draw(st.sampled_from([0.0, 0.1])), "filters": draw(filters())}
 
 
